@@ -13,6 +13,35 @@ def P(src, variant, name, args=None, tiers=('quick', 'thorough'), tier_args=None
 
 
 CHECKS = {
+    'C06': {
+        'engine': 'langx',
+        'rule': 'generated RFC 8259 documents vs reference parser',
+        'parts': [
+            P('props/C06.cpp', 'asan', 'docs-asan', tier_args={'quick': ['--nodes', '4'], 'thorough': ['--nodes', '5']}),
+            P('props/C06.cpp', 'fast', 'docs-fast', tier_args={'quick': ['--nodes', '5'], 'thorough': ['--nodes', '6']}),
+        ],
+        'floor': {'quick': 1000, 'thorough': 1000},
+    },
+    'C07': {
+        'engine': 'langx',
+        'rule': 'rejection families of generated documents',
+        'parts': [
+            P('props/C07.cpp', 'asan', 'families-asan', tier_args={'quick': ['--nodes', '3', '--units', '4'], 'thorough': ['--nodes', '4', '--units', '5']}),
+            P('props/C07.cpp', 'fast', 'families-fast', tier_args={'quick': ['--nodes', '4', '--units', '5'], 'thorough': ['--nodes', '5', '--units', '6']}),
+        ],
+        'floor': {'quick': 1000, 'thorough': 1000},
+    },
+    'C05': {
+        'engine': 'langx',
+        'rule': 'bounded-exhaustive JSON texts in exact-size buffers',
+        'parts': [
+            P('props/C05.cpp', 'asan', 'asan', tier_args={'quick': ['--units', '4', '--tokens', '3', '--depth', '1000'],
+                                                        'thorough': ['--units', '5', '--tokens', '4', '--depth', '4096']}),
+            P('props/C05.cpp', 'fast', 'guardpage', tier_args={'quick': ['--units', '5', '--tokens', '4', '--depth', '4096'],
+                                                             'thorough': ['--units', '6', '--tokens', '5', '--depth', '4096']}),
+        ],
+        'floor': {'quick': 100, 'thorough': 100},
+    },
     'C20': {
         'engine': 'numx',
         'pre': [['python3', 'tools/gen_utf_ref.py', 'build/utf_ref.bin']],
